@@ -21,15 +21,12 @@ def doc_json(o):
 
 
 def containers_of(cfg):
-    spec = common.impl().utils.normalize_nested_fields_specs(cfg.get("nested_fields"))
-    return es.declared_containers(spec)
+    return es.declared_containers(es.norm_nested_spec(cfg.get("nested_fields")))
 
 
 def actual_prefixes(cfg):
     """what the builder really uses as nested paths (KF5: only parents of leaves)"""
-    U = common.impl().utils
-    return sorted({k.rsplit(".", 1)[0] for k in
-                   U.flatten_nested_fields_specs(U.normalize_nested_fields_specs(cfg.get("nested_fields")))})
+    return es.leaf_parent_prefixes(cfg.get("nested_fields"))
 
 
 def semantic_check(ctx, rng, cfg, d, raw, info, trials=6):
